@@ -225,7 +225,7 @@ func (nr *netRun) adversarialPhase() {
 			if !ok {
 				continue
 			}
-			mut := r.Intn(6)
+			mut := r.Intn(7)
 			tid, pull, base, v := x.chid.ID, x.pull, x.root, x.voucher
 			what := "valid"
 			switch mut {
@@ -243,6 +243,15 @@ func (nr *netRun) adversarialPhase() {
 				what = "transfer-id"
 			case 5:
 				what = "from-stranger"
+			case 6:
+				// a voucher the initiator did send on this channel - but later, not the one the channel was opened with
+				what = "voucher"
+				v.Voucher = basicnode.NewString("forged")
+				if st, err := nr.B.Mgr.ChannelState(context.Background(), x.chid); err == nil && len(sb.Vouchers) > 1 && sb.LastV != sb.Voucher0 {
+					v = st.LastVoucher()
+					what = "voucher(a-later-one-of-the-channel)"
+					r.Probe("adv-restart-with-later-voucher")
+				}
 			}
 			msg, err := message.NewRequest(tid, true, pull, &v, base, x.sel)
 			if err != nil {
